@@ -137,9 +137,30 @@ def rmse_mip(ctx, pts, red, family):
 def run(ctx):
     rng = ctx.rng
     quick = ctx.tier == 'quick'
+    # fixed boundary cases on every run: flat curves (tss == 0), flat but one point, the smallest curves, for every metric
+    for n, yv in ((8, 0.0), (8, 0.75), (5, 1.0 / 3), (3, 2.0), (2, 1.0)):
+        for bump in (None, 0):
+            pts = np.array([[float(i), yv] for i in range(n)], float)
+            if bump is not None and n > 2:
+                pts[n // 2, 1] += 0.25
+            qs = [[0, n - 1], list(range(n)), sorted({0, n // 2, n - 1}), [0, n - 1]]
+            for kind in KINDS:
+                one(ctx, pts, kind, qs, 'flat' if bump is None else 'flat+1')
     for _ in range(220 if quick else 5000):
         n = rng.randrange(3, 40)
         pts, fam = gen.dyadic_curve(rng, n, scale_exp=0)
+        u = rng.random()
+        if u < 0.06:
+            # completely flat curve (total sum of squares exactly 0), y = 0 included
+            pts = pts.copy()
+            pts[:, 1] = rng.choice([0.0, 1.0, 0.75, 3.0, 1.0 / 3])
+            fam = 'flat'
+        elif u < 0.10:
+            # flat except one point: a single non-zero residual
+            pts = pts.copy()
+            pts[:, 1] = rng.choice([1.0, 0.5, 2.0])
+            pts[rng.randrange(0, n), 1] += rng.choice([0.25, -0.25, 1.0])
+            fam = 'flat+1'
         kind = rng.choice(KINDS)
         base = gen.random_subset_with_ends(rng, n)
         queries = []
